@@ -49,7 +49,7 @@ type frEnvT struct {
 	changes  []*engine.Change // flattened
 	progs    []*engine.Program
 
-	readErr, parseErr, generated, formatErr, parses, writeErr []frTri
+	readErr, parseErr, generated, formatErr, parses, writeErr, stdoutErr []frTri
 	match, replaceErr                                         [][]frTri
 
 	effects    []frEffect
@@ -70,7 +70,7 @@ func frDraw(t *frTri, name string, allow bool) bool {
 }
 
 // which outcomes may occur (task parameters switch fault classes on)
-var frAllow struct{ readErr, parseErr, generated, replaceErr, formatErr, noParse, writeErr bool }
+var frAllow struct{ readErr, parseErr, generated, replaceErr, formatErr, noParse, writeErr, stdoutErr bool }
 
 func frNewEnv(nfiles int, nchanges []int) *frEnvT {
 	e := &frEnvT{nfiles: nfiles, nchanges: nchanges, cur: -1}
@@ -108,6 +108,7 @@ func frNewEnv(nfiles int, nchanges []int) *frEnvT {
 	e.formatErr = make([]frTri, nfiles)
 	e.parses = make([]frTri, nfiles)
 	e.writeErr = make([]frTri, nfiles)
+	e.stdoutErr = make([]frTri, nfiles)
 	return e
 }
 
@@ -299,6 +300,11 @@ func StubFRLogPrintf(l *log.Logger, format string, v ...any)          {}
 type frWriter struct{ ch string }
 
 func (w *frWriter) Write(p []byte) (int, error) {
+	// standard output that cannot take the bytes of file cur (a full device, a closed pipe)
+	if e := frEnv; w.ch == "stdout" && frAllow.stdoutErr && e.cur >= 0 && e.cur < len(e.stdoutErr) &&
+		frDraw(&e.stdoutErr[e.cur], fmt.Sprintf("stdoutErr%d", e.cur), true) {
+		return 0, errors.New("write /dev/stdout: no space left on device")
+	}
 	frEnv.log(frEffect{kind: w.ch, file: frEnv.cur, data: append([]byte{}, p...)})
 	return len(p), nil
 }
